@@ -400,6 +400,18 @@ class _Opaque(af.AffEval):
       return Poly.atom(('opaque', ast.dump(e)))
 
 
+def _has_opaque(p) -> bool:
+  """Does an un-evaluable sub-expression take part in this polynomial (also inside min)?"""
+  def atoms(q):
+    for m in q.t:
+      for a, _ in m:
+        yield a
+        if a[0] == 'min':
+          for k in a[1]:
+            yield from atoms(af._KEY2POLY[k])
+  return any(a[0] == 'opaque' for a in atoms(p))
+
+
 def _paths(stmts):
   """Statement paths through a block of assignments / if-else (no loops)."""
   if not stmts:
@@ -505,7 +517,7 @@ def r6(ctx: Ctx):
                       ' (elements of the next range are read as well)')
     if not (adv - (hi - lo)).is_zero():
       problems.append('self.i does not advance by exactly the number of elements read')
-    if problems and ev.opaque:
+    if problems and any(_has_opaque(q) for q in (lo, hi, adv)):
       raise AnalysisError(f'{rule}: cannot evaluate the read window on path [{desc}]')
     if problems:
       ctx.fail(rule, fi, f'_RangeIterator.__next__ read block [{desc}]: window [i, min(.., stop)) and i += width',
@@ -866,8 +878,8 @@ VARIANTS = [
        '    shard_state = ShardConfig(\n        shard_index, num_shards, offset, parent=self._shard_state\n    )',
        '    parent = self._shard_state\n    shard_state = ShardConfig(shard_index, num_shards, offset, parent=parent)'),
     OK('range-upper-inline', 'utils/iter_utils.py',
-       '          self._cache.extend(self.data[self.i : self.i + batch_size])',
-       '          upper = min(self.stop, self.i + self._batch_size)\n          self._cache.extend(self.data[self.i : upper])'),
+       '          batch = list(self.data[self.i : self.i + batch_size])',
+       '          upper = min(self.stop, self.i + self._batch_size)\n          batch = list(self.data[self.i : upper])'),
     OK('range-else-advance-one', 'utils/iter_utils.py',
        '        batch_size = self._batch_size\n        if self._batch_size > 1:',
        '        batch_size = 1\n        if self._batch_size > 1:'),
